@@ -58,9 +58,15 @@ func NewHostsList(hosts []string) (HostsList, error) {
 // make IPv6 addresses more readable (for example "my-host=::1" instead of
 // "my-host:::1").
 func (h HostsList) AsList(sep string) []string {
+	// hosts in a stable order, the addresses of one host in the order they were given
+	hosts := make([]string, 0, len(h))
+	for k := range h {
+		hosts = append(hosts, k)
+	}
+	sort.Strings(hosts)
 	l := make([]string, 0, len(h))
-	for k, v := range h {
-		for _, ip := range v {
+	for _, k := range hosts {
+		for _, ip := range h[k] {
 			l = append(l, fmt.Sprintf("%s%s%s", k, sep, ip))
 		}
 	}
@@ -68,15 +74,11 @@ func (h HostsList) AsList(sep string) []string {
 }
 
 func (h HostsList) MarshalYAML() (interface{}, error) {
-	list := h.AsList("=")
-	sort.Strings(list)
-	return list, nil
+	return h.AsList("="), nil
 }
 
 func (h HostsList) MarshalJSON() ([]byte, error) {
-	list := h.AsList("=")
-	sort.Strings(list)
-	return json.Marshal(list)
+	return json.Marshal(h.AsList("="))
 }
 
 var hostListSerapators = []string{"=", ":"}
